@@ -17,12 +17,14 @@ from k1 import Unit
 #                     "fixed"       both repaired                                        <- current tree
 #   take_until:       "as_written"  trigger_receiver::set_done destroys sourceOp_ (finding 2)
 #                     "fixed"       it destroys triggerOp_ (commit e46f32d)                 <- current tree
+#   type_erased_stream next-op: one model only (no defect found)
 MODEL_VARIANT = {
     "stop_immediately": "fixed",
     "take_until": "fixed",
 }
 # (development / mutation tests only: VERIF_C13_MODEL_VARIANT_SI / _TU override the constants)
 VARIANT_SI = os.environ.get("VERIF_C13_MODEL_VARIANT_SI") or MODEL_VARIANT["stop_immediately"]
+VARIANT_TU = os.environ.get("VERIF_C13_MODEL_VARIANT_TU") or os.environ.get("VERIF_C13_MODEL_VARIANT") or MODEL_VARIANT["take_until"]
 
 _EV = re.compile(r"t(\d+) (\S+) ?(.*)$")
 
@@ -45,7 +47,6 @@ class StopImmediately(Unit):
     maxruns = {"quick": 3000, "thorough": 40000}
     nrandom = {"quick": 300, "thorough": 3000}
     variant = VARIANT_SI
-    thorough_cfgs = ("shimasan17",)     # second configuration of the thorough tier (ASan + UBSan under the shim)
 
     def programs(self, tier):
         progs = [("vd", "nostop"), ("ve", "nostop"), ("d", "stop"), ("e", "stop"), ("vd", "stop"), ("vve", "stop")]
@@ -118,6 +119,260 @@ class StopImmediately(Unit):
         return None
 
 
+class StopImmediatelyASan(StopImmediately):
+    """Same driver under AddressSanitizer/UBSan.  Thorough only."""
+    name = "stop_immediately/asan"; cfg = "shimasan17"
+    maxruns = {"quick": 500, "thorough": 5000}
+    nrandom = {"quick": 50, "thorough": 500}
+
+    def programs(self, tier):
+        return [] if tier == "quick" else StopImmediately.programs(self, tier)
+
+
+# ------------------------------------------------------------------------------------------------------
+# take_until (model TakeUntil, handler 'takeuntil')
+
+# implementation threads of harness/k1_take_until.cpp
+_TU_T0, _TU_TA, _TU_TB, _TU_TC, _TU_TFIN = 0, 1, 2, 3, 4
+
+_TU_PLAIN = {"!cons.next.ctor", "!cons.next.dtor", "!cons.cleanup.ctor", "!cons.cleanup.dtor", "!stream.destroyed",
+          "!cons.finished", "!src.next.ctor", "!src.next.start", "!src.next.dtor", "!trg.next.ctor", "!trg.next.start",
+          "!trg.next.dtor", "!src.cleanup.ctor", "!src.cleanup.start", "!trg.cleanup.ctor", "!trg.cleanup.start",
+          "!cons.cleanup d", "!cons.cleanup e 7", "!cons.cleanup e 8", "!cons.next d",
+          "!src.cleanup.dtor", "!src.cleanup.dtor BAD", "!trg.cleanup.dtor", "!trg.cleanup.dtor BAD",
+          "!src.cleanup.complete BAD", "!trg.cleanup.complete BAD", "!src.cleanup.complete d", "!trg.cleanup.complete d"}
+
+_TU_QUICK = [("vd", "v", "d", "d", "stop"), ("vvd", "d", "d", "d", "stop"), ("ve", "e", "d", "e", "stop"),
+         ("d", "v", "e", "d", "stop"), ("vd", "v", "e", "e", "nostop"), ("e", "d", "d", "d", "nostop")]
+_TU_MORE = [("vvvd", "v", "d", "d", "stop"), ("vve", "v", "e", "e", "stop"), ("d", "e", "d", "e", "stop"),
+        ("vd", "d", "e", "d", "stop"), ("vvd", "v", "d", "e", "nostop"), ("e", "v", "e", "d", "stop")]
+
+
+def _tu_norm_action(a):
+    """strip the payloads the model does not carry (element values, error codes of next())"""
+    for pre in ("!src.next.complete ", "!cons.next "):
+        if a.startswith(pre):
+            k = a[len(pre):].split(" ")[0]
+            return pre + k if k in ("v", "d", "e") else a          # "... BAD" stays as it is
+    if a.startswith("!trg.next.complete"):
+        return a if a.endswith("BAD") else "!trg.next.complete"
+    for pre in ("!src.cleanup.complete ", "!trg.cleanup.complete "):
+        if a.startswith(pre + "e "):
+            return pre + "e"
+    return a
+
+
+class TakeUntil(Unit):
+    name = "take_until/TakeUntil"; driver = "k1_take_until"; cfg = "shim17"; handler = "takeuntil"
+    maxruns = {"quick": 2500, "thorough": 40000}
+    nrandom = {"quick": 300, "thorough": 3000}
+
+    def programs(self, tier):
+        return _TU_QUICK if tier == "quick" else _TU_QUICK + _TU_MORE
+
+    def model_args(self, prog):
+        return "%s %s" % (VARIANT_TU, prog[4])
+
+    def project(self, prog, events):
+        out = []
+        a_tid, b_tid = None, None         # the model thread id that drives physical thread A / B right now
+        in_reg = {}                        # thread -> inside the registration window of a next-op start
+        for e in events:
+            m = re.match(r"t(\d+) (\S+) ?(.*)$", e)
+            t, n, r = int(m.group(1)), m.group(2), m.group(3)
+            if t == _TU_TFIN:
+                continue
+            if n.startswith("!"):
+                a = _tu_norm_action((n + " " + r).strip())
+                if t == _TU_TA:
+                    if a.startswith("!src.next.complete "):
+                        a_tid = {"v": 1, "d": 2, "e": 3}.get(a.split(" ")[1], a_tid)
+                    elif a.startswith("!src.cleanup.complete "):
+                        k = a.split(" ")[1]
+                        a_tid = {"d": 4, "e": 5}.get(k, 5 if prog[2] == "e" else 4)
+                elif t == _TU_TB:
+                    if a.startswith("!trg.next.complete"):
+                        b_tid = 6
+                    elif a.startswith("!trg.cleanup.complete "):
+                        k = a.split(" ")[1]
+                        b_tid = {"d": 7, "e": 8}.get(k, 8 if prog[3] == "e" else 7)
+                if a == "!src.next.ctor":
+                    in_reg[t] = True
+                elif a == "!src.next.start":
+                    in_reg[t] = False
+                kept = a
+            elif n == "ext.state":
+                if re.match(r"C\.\S+ \d+->\d+ ok", r) or r.startswith("S."):
+                    kept = "ext.state " + r
+                else:
+                    # try_lock_unless_stop_requested of a registration sees the stop bit
+                    mm = re.match(r"L\.\S+ (\d+)$", r) or re.match(r"C\.\S+ (\d+)->\d+ fail", r)
+                    if mm and in_reg.get(t) and int(mm.group(1)) & 1:
+                        kept = "ext.state OBS %d" % int(mm.group(1))
+                        in_reg[t] = False
+                    else:
+                        continue
+            elif n == "tu.src":
+                if re.match(r"C\.\S+ \d+->\d+ ok", r) or r.startswith("S."):
+                    kept = "tu.src " + r
+                else:
+                    mm = re.match(r"L\.\S+ (\d+)$", r) or re.match(r"C\.\S+ (\d+)->\d+ fail", r)
+                    if mm and int(mm.group(1)) & 1:
+                        kept = "tu.src OBS %d" % int(mm.group(1))
+                    elif mm:
+                        continue                     # the load that feeds the CAS
+                    else:
+                        kept = "tu.src " + r         # anything unexpected is shown to the model
+            elif n in ("tu.ready", "tu.completed"):
+                kept = n + " " + r
+            elif n == "cb.completed":
+                if not r.endswith(" 1"):
+                    continue                         # remove_callback spinning on callbackCompleted_
+                kept = "cb.completed " + r
+            else:
+                continue
+            if t == _TU_T0:
+                mt = 0
+            elif t == _TU_TA:
+                mt = a_tid if a_tid is not None else 1
+            elif t == _TU_TB:
+                mt = b_tid if b_tid is not None else 6
+            elif t == _TU_TC:
+                mt = 9
+            else:
+                mt = 100 + t                         # no such model thread
+            out.append((mt, kept))
+        return out
+
+    def post_check(self, prog, summary, proj):
+        f = dict(kv.split("=", 1) for kv in summary.split(" ") if "=" in kv)
+        if VARIANT_TU != "fixed":
+            return None
+        if f.get("quiescent") != "1" or f.get("finished") != "1":
+            return "model not quiescent at the end of a complete implementation run: " + summary
+        for k in ("uaf", "baddtor", "dup", "ordbad"):
+            if f.get(k) != "0":
+                return "fixed model flags %s on an implementation trace: %s" % (k, summary)
+        for k in ("srcclctor", "srccldtor", "trgclctor", "trgcldtor", "clcompl"):
+            if f.get(k) != "1":
+                return "fixed model: %s = %s at the end: %s" % (k, f.get(k), summary)
+        return None
+
+
+class TakeUntilASan(TakeUntil):
+    """Same driver under AddressSanitizer/UBSan: the stream is really freed when the consumer finishes, the
+    storage of the destroyed cleanup-op is ASan-poisoned.  Thorough only."""
+    name = "take_until/TakeUntil-asan"; cfg = "shimasan17"
+    maxruns = {"quick": 500, "thorough": 4000}
+    nrandom = {"quick": 50, "thorough": 500}
+
+    def programs(self, tier):
+        return [] if tier == "quick" else [p + ("realfree",) for p in _TU_QUICK]
+
+    def model_args(self, prog):
+        return "%s %s" % (VARIANT_TU, prog[4])
+
+
+# ------------------------------------------------------------------------------------------------------
+# type_erased_stream next-op (model TypeEraseNext, handler 'typeerasenext')
+
+_TE_KIND_TID = {"v": 1, "d": 3, "e": 4}          # model thread id of thread A by the kind of the completion in progress
+_TE_TID_CLEANUP = 5
+
+
+class TypeEraseNext(Unit):
+    name = "type_erase/TypeEraseNext"; driver = "k1_type_erased_next"; cfg = "shim17"; handler = "typeerasenext"
+    bound = {"quick": 2, "thorough": 3}
+    maxruns = {"quick": 2500, "thorough": 30000}
+    nrandom = {"quick": 300, "thorough": 3000}
+
+    # (a script that is used up continues with d: "v" = "vd", "-" = "d")
+    QUICK = [("v", "stop"), ("d", "stop"), ("e", "stop"), ("ve", "stop"), ("vv", "stop"),
+             ("vv", "nostop"), ("ve", "nostop"), ("v", "stop", "cerr")]
+    MORE = [("vvv", "stop"), ("vve", "stop"), ("d", "nostop"), ("e", "nostop"), ("vvv", "nostop")]
+
+    def programs(self, tier):
+        return list(self.QUICK) if tier == "quick" else list(self.QUICK) + list(self.MORE)
+
+    def model_args(self, prog):
+        return prog[1]
+
+    def project(self, prog, events):
+        out = []
+        a_tid = None                 # model tid of implementation thread 1 (A)
+        registering = set()          # threads inside the constructor of a next-op (stop callback registration)
+        for e in events:
+            m = re.match(r"t(\d+) (\S+) ?(.*)$", e)
+            t, n, r = int(m.group(1)), m.group(2), m.group(3)
+            if t == 3:
+                continue             # the finaliser
+            if t == 1:
+                if n == "!src.next.complete":
+                    a_tid = _TE_KIND_TID.get(r.split(" ")[0], 1)
+                elif n == "!src.cleanup.complete":
+                    a_tid = _TE_TID_CLEANUP
+                mt = a_tid if a_tid is not None else 1
+            else:
+                mt = t
+            if n == "ext.state":
+                if re.match(r"C\.\S+ \d+->\d+ ok", r) or r.startswith("S."):
+                    registering.discard(t)
+                    out.append((mt, "ext.state " + r))
+                elif t in registering:
+                    # try_lock_unless_stop_requested(false) sees the stop bit: the callback runs inline
+                    mm = re.match(r"L\.\S+ (\d+)$", r) or re.match(r"C\.\S+ (\d+)->\d+ fail", r)
+                    if mm and int(mm.group(1)) & 1:
+                        registering.discard(t)
+                        out.append((mt, "ext.state OBS %d" % int(mm.group(1))))
+            elif n == "te.ref":
+                out.append((mt, "te.ref " + r))
+            elif n == "te.src":
+                if not r.startswith("L."):
+                    out.append((mt, "te.src " + r))
+            elif n == "cb.completed":
+                if r.endswith(" 1"):
+                    out.append((mt, "cb.completed " + r))
+            elif n.startswith("!"):
+                if n == "!cons.next.ctor":
+                    registering.add(t)
+                if n in ("!cons.next", "!src.next.complete"):
+                    out.append((mt, n + " " + r.split(" ")[0]))      # value / error code: checked by the monitor
+                elif n in ("!cons.cleanup", "!src.cleanup.complete"):
+                    out.append((mt, n))                              # done / error of the cleanup: checked by the monitor
+                else:
+                    out.append((mt, (n + " " + r).strip()))
+            else:
+                out.append((mt, (n + " " + r).strip()))
+        return out
+
+    def nontrivial(self, proj):
+        # at least two context switches between physical threads (the tids 1, 3, 4, 5 are all thread A)
+        phys = [1 if t in (1, 3, 4, 5) else t for t, _ in proj]
+        return sum(1 for a, b in zip(phys, phys[1:]) if a != b) >= 2
+
+    def post_check(self, prog, summary, proj):
+        f = dict(kv.split("=", 1) for kv in summary.split(" ") if "=" in kv)
+        if f.get("quiescent") != "1":
+            return "model not quiescent at the end of a complete implementation run: " + summary
+        for k in ("uaf", "dup", "vad", "early", "nofwd", "clash", "bad"):
+            if f.get(k) != "0":
+                return "model reports %s on an implementation trace: %s" % (k, summary)
+        if f.get("ndel") != "1" or f.get("finished") != "1" or f.get("delivered") not in ("d", "e"):
+            return "model: last next() / cleanup not completed as expected: " + summary
+        return None
+
+
+class TypeEraseNextASan(TypeEraseNext):
+    """Same driver under AddressSanitizer/UBSan (the concrete stream is really freed, the destroyed next-op
+    storage is ASan-poisoned): thorough only."""
+    name = "type_erase/TypeEraseNext-asan"; cfg = "shimasan17"
+    maxruns = {"quick": 800, "thorough": 5000}
+    nrandom = {"quick": 100, "thorough": 500}
+
+    def programs(self, tier):
+        return [] if tier == "quick" else list(TypeEraseNext.QUICK)
+
+
 # ------------------------------------------------------------------------------------------------------
 # hook for tools/props/c13.py (and the private tools/props/c13proto_dev.py)
 
@@ -126,6 +381,24 @@ TAGS = {
     "stop_immediately": {
         "UAF9:": "finding9-start-uses-stream_-after-destruction",
         "UAF9B:": "finding9b-handle_signal-reads-dead-receiver",
+    },
+    "take_until": {
+        "F2-DTOR:": "finding2-trigger-cleanup-destroys-sourceOp",
+        "UAF:": "use-after-stream-destroyed",
+    },
+    "type_erase": {
+        "UAF:": "next-op-or-stream-used-after-destruction",
+        "BAD:": "operation-on-dead-op-state",
+        "UNION:": "union-member-lifetime",
+        "ELECT:": "election-wrong-result",
+        "REF:": "refcount-protocol",
+        "FWD:": "stop-not-forwarded-before-done",
+        "NEXT:": "next-completed-not-exactly-once",
+        "VALUES:": "value-duplicated-or-invented",
+        "CLEANUP:": "cleanup-order",
+        "OPS:": "op-states-unbalanced",
+        "END:": "consumer-never-finished",
+        "VIOL:": "consumer-or-source-contract",
     },
 }
 
@@ -156,14 +429,13 @@ class Keyed:
         return self._chk.violation(key, replay_path, no_input=no_input, text=text)
 
 
-def units():
-    us = [StopImmediately()]
-    for n in ("TakeUntil", "TypeEraseNext"):
-        if n in globals():
-            us.append(globals()[n]())
-    only = os.environ.get("VERIF_C13_ONLY")       # development: run one unit only
+def units(tier):
+    us = [StopImmediately(), TakeUntil(), TypeEraseNext()]
+    if tier != "quick":      # (k1.run_unit builds the driver even for an empty program list)
+        us += [StopImmediatelyASan(), TakeUntilASan(), TypeEraseNextASan()]
+    only = os.environ.get("VERIF_C13_ONLY")       # development: run the units of one adaptor only
     if only:
-        us = [u for u in us if u.name == only]
+        us = [u for u in us if u.name.split("/")[0] == only]
     return us
 
 
@@ -177,20 +449,13 @@ def trusted_base():
         "tracked, poisoned op-states; consumer doing what reduce_stream does inline), the three k1 drivers (compiled -O0 so that "
         "reads through dead references reach the poisoned storage)",
         "E1 units, modelled not verified: the stop sources at lock granularity (C03 owns their internals); the scripted sources "
-        "ignore stop requests",
+        "ignore stop requests and register no callback on the adaptors' internal stop sources; element values / error codes are "
+        "abstracted to kinds in the models and checked by the drivers' direct monitors",
         "E1 units: model variants tied to the code: tools/units/stream_proto.py MODEL_VARIANT = %r" % (MODEL_VARIANT,)]
 
 
 def run_units(chk):
-    """Runs the three K1 units; in the thorough tier each also under its second configuration."""
+    """Runs the three K1 units; in the thorough tier each also under shimasan17 (ASan + UBSan under the shim)."""
     kchk = Keyed(chk)
-    for u in units():
+    for u in units(chk.tier):
         k1.run_unit(kchk, u)
-        if chk.tier != "quick":
-            for cfg2 in getattr(u, "thorough_cfgs", ()):
-                u2 = type(u)()
-                u2.cfg = cfg2
-                u2.name = u.name + "@" + cfg2
-                u2.maxruns = dict(u.maxruns, thorough=max(1000, u.maxruns["thorough"] // 8))
-                u2.nrandom = dict(u.nrandom, thorough=max(100, u.nrandom["thorough"] // 6))
-                k1.run_unit(kchk, u2, key_prefix=u.name)
